@@ -49,6 +49,15 @@ func DeepEqual(x, y Node) bool {
 		}
 		return xv == yv
 	case Kind_Int:
+		// Nodes holding an integer above the int64 range implement UintNode;
+		// their AsInt returns an error, so compare those through AsUint.
+		xu, xIsUint := x.(UintNode)
+		yu, yIsUint := y.(UintNode)
+		if xIsUint || yIsUint {
+			xneg, xmag := intMagnitude(x, xu, xIsUint)
+			yneg, ymag := intMagnitude(y, yu, yIsUint)
+			return xneg == yneg && xmag == ymag
+		}
 		xv, err := x.AsInt()
 		if err != nil {
 			panic(err)
@@ -153,4 +162,24 @@ func DeepEqual(x, y Node) bool {
 	default:
 		return false
 	}
+}
+
+// intMagnitude returns the sign and magnitude of an int-kind node,
+// reading it through AsUint when the node offers it.
+func intMagnitude(n Node, un UintNode, isUint bool) (negative bool, magnitude uint64) {
+	if isUint {
+		v, err := un.AsUint()
+		if err != nil {
+			panic(err)
+		}
+		return false, v
+	}
+	v, err := n.AsInt()
+	if err != nil {
+		panic(err)
+	}
+	if v < 0 {
+		return true, uint64(-(v + 1)) + 1
+	}
+	return false, uint64(v)
 }
